@@ -48,33 +48,6 @@ class XExecutor(Executor):
         return super().getattr(o, attr, st)
 
     # -- symbolic dictionary keys --------------------------------------------------------------------
-    def _assign(self, t, v, st, frame):
-        if isinstance(t, ast.Subscript):
-            # <expr>[key] = v with <expr> a concrete dict and a symbolic key: identity-keyed entry (the same treatment for a
-            # local name, an attribute of a record or a field of a NamedTuple)
-            handled = None
-            outs = []
-            for st2, cont in self.ev(t.value, st, frame):
-                if not isinstance(cont, dict):
-                    handled = False
-                    break
-                for st3, key in self.ev(t.slice, st2, frame):
-                    if not is_sym(key):
-                        handled = False
-                        break
-                    cont3 = st3.tr(cont)  # the key expression may have forked: this state's copy of the container
-                    cont3[_hashable(key)] = st3.tr(v)
-                    outs.append(st3)
-                    handled = True if handled is None else handled
-                if handled is False:
-                    break
-            if handled:
-                yield from outs
-                return
-            if outs:
-                raise Unsupported("subscript store with both symbolic and concrete keys across paths")
-        yield from super()._assign(t, v, st, frame)
-
     def contains(self, cont, item, st):
         if isinstance(cont, (set, frozenset, list, tuple)) and any(isinstance(x, _HK) for x in cont):
             cont = [_unhash(x) for x in cont]
